@@ -995,11 +995,11 @@ impl Sim {
     /// points reached, events recorded) during a 20 ms virtual window.
     pub async fn barrier(&self, phase: u32) -> bool {
         let mut quiescent = false;
-        for _ in 0..40 {
+        for _ in 0..200 {
             let before = (hooks::activity(), self.events.borrow().len());
             tokio::time::sleep(Duration::from_millis(20)).await;
             let after = (hooks::activity(), self.events.borrow().len());
-            if before == after {
+            if before == after && !hooks::long_stall_pending() {
                 quiescent = true;
                 break;
             }
@@ -1206,6 +1206,12 @@ impl Sim {
             }
             let _quiescent = self.barrier(phase_no).await;
             if phase.audit {
+                if self.plan.has_tag("double_audit") {
+                    // a second barrier before anything looks at the subscriptions: the statistics
+                    // request itself goes through the subscription actor and makes it look at its
+                    // leases, which would hide an expiry timer that did not fire
+                    self.barrier(phase_no).await;
+                }
                 self.snapshot().await;
                 if self.plan.has_tag("double_audit") {
                     self.barrier(phase_no).await;
